@@ -39,6 +39,8 @@ def configs(tier):
             out.append({"classes": cs, "funcs": fn, "entry": "make"})
     out.append({"classes": ["DE", "UE"], "funcs": "none", "entry": "customizable"})
     out.append({"classes": ["DE", "UE"], "funcs": "none", "entry": "make", "stale_attr": True})
+    # distinct vertices (members and non-members) that carry one and the same uid
+    out.append({"classes": ["DE", "UE"], "funcs": "none", "entry": "make", "same_uid": True})
     return out
 
 
@@ -127,7 +129,7 @@ if net is not None:
 
 
 def scenario(B, p):
-    verts = make_vertices(B, 3)
+    verts = make_vertices(B, 3, uid=7 if p.get("same_uid") else None)
     links = make_links(B, p["classes"])
     n = len(links)
     symbolic_assoc_state(B, verts, links, n, n, two_ended_wellformed=True)
